@@ -81,6 +81,26 @@ impl std::fmt::Debug for DictStarEntry {
     }
 }
 
+// Verification hook: DictEntry/DictStarEntry fields are pub(super), so dictionary and
+// stream types cannot be built or inspected outside this crate.
+#[cfg(feature = "verif")]
+impl DictEntry {
+    pub fn verif_new(key: Vec<u8>, chk: Rc<TypeCheck>, opt: DictKeySpec) -> DictEntry {
+        DictEntry { key, chk, opt }
+    }
+    pub fn verif_key(&self) -> &[u8] { &self.key }
+    pub fn verif_chk(&self) -> &Rc<TypeCheck> { &self.chk }
+    pub fn verif_opt(&self) -> DictKeySpec { self.opt }
+}
+#[cfg(feature = "verif")]
+impl DictStarEntry {
+    pub fn verif_new(chk: Rc<TypeCheck>, opt: DictKeySpec) -> DictStarEntry {
+        DictStarEntry { chk, opt }
+    }
+    pub fn verif_chk(&self) -> &Rc<TypeCheck> { &self.chk }
+    pub fn verif_opt(&self) -> DictKeySpec { self.opt }
+}
+
 #[derive(Debug, PartialEq, Eq, PartialOrd, Ord)]
 pub enum PDFType {
     Any,
